@@ -404,6 +404,18 @@ def run(repo: Repo, L: Ledger, tier: str):
                         iuses = [x for x in walk_shallow(inner.node) if isinstance(x, ast.Name) and x.id == pn and isinstance(x.ctx, ast.Load)]
                         if iuses and all(isinstance(getattr(x, "_parent", None), ast.Call) and dotted(x._parent.func) == fmt.name and x in x._parent.args for x in iuses):
                             continue
+                # h.write(<text>) where the text was rendered by the formatter (directly or through a helper that calls it)
+                gp = getattr(par, "_parent", None)
+                if isinstance(par, ast.Attribute) and par.attr == "write" and isinstance(gp, ast.Call) and gp.args:
+                    via_fmt = False
+                    for c_ in [x for x in ast.walk(gp.args[0]) if isinstance(x, ast.Call)]:
+                        tg_, _, _ = repo.resolve_call(c_, fn)
+                        for t_ in tg_:
+                            if t_ is fmt or fmt.qualname in repo.reachable_from([t_]):
+                                via_fmt = True
+                    if via_fmt:
+                        continue
+                    raise AnalysisError(f"{fn.short}: AGP file handle '{h}' is written with '{norm(gp)[:60]}': where that text comes from is not understood")
                 okh = False
                 L.fail("O9", f"{fn.short}:{h}", f"AGP file handle '{h}' is used outside format_agp: {norm(par)[:80]}", fn.loc(u))
             if okh:
